@@ -9,6 +9,7 @@ package mcp
 import (
 	"context"
 	"encoding/json"
+	"fmt"
 	"net/http"
 
 	"trpc.group/trpc-go/trpc-mcp-go/internal/httputil"
@@ -100,4 +101,21 @@ func (f *responderFactory) createResponder(req *http.Request, body []byte) respo
 	return newJSONResponder(
 		withJSONStatelessMode(f.isStateless),
 	)
+}
+
+// newEncodingFailureResponse builds the JSON-RPC internal error that replaces a response which
+// could not be encoded; it carries the id of the original response.
+func newEncodingFailureResponse(resp interface{}, cause error) *JSONRPCError {
+	var id RequestId
+	switch m := resp.(type) {
+	case JSONRPCResponse:
+		id = m.ID
+	case *JSONRPCResponse:
+		id = m.ID
+	case JSONRPCError:
+		id = m.ID
+	case *JSONRPCError:
+		id = m.ID
+	}
+	return newJSONRPCErrorResponse(id, ErrCodeInternal, fmt.Sprintf("failed to encode response: %v", cause), nil)
 }
